@@ -11,7 +11,7 @@ LEVEL = 'proof'
 FINGERPRINTS = ['alarms.Alarms', 'alarms.AlarmTime', 'cal.Alarm', 'cal.create_utc_property', 'tools.to_datetime',
                 'tools.normalize_pytz', 'tools.is_date', 'cal.Component.is_thunderbird']
 RULE = ('events and todos x start kind (none, date, floating, UTC, zoned at a DST change) x end kind (none, DTEND/DUE, '
-        'DURATION) x every single alarm of a 180-shape table (relative +/- triggers, RELATED absent/START/END/end/start, '
+        'DURATION) x every single alarm of a 274-shape table (relative +/- triggers, RELATED absent/START/END/end/start, '
         'absolute UTC/zoned/floating, no TRIGGER, REPEAT absent/0..3/-1 with DURATION absent/0/sub-day/whole-day), then seeded '
         'random lists of 0-4 alarms; each built through the API, from hand-written text and from its own to_ical(), under '
         'zoneinfo and pytz; a case is non-trivial when it has a repeating alarm, an error, a date/floating anchor or a DST '
@@ -22,6 +22,8 @@ ASSUMPTIONS = ['component start/end are taken from Event/Todo.start/.end (their 
                'aware + timedelta is exact elapsed time in the model; zoneinfo cases where the UTC offset changes between '
                'an anchor and anchor+delta are sent as al_skip (unmodelled) and judged by the oracle (known finding '
                'zoneinfo-wallclock-dst)',
+               'an absolute TRIGGER with a TZID (not RFC 5545: MUST be UTC) is only built through the API; parsing drops '
+               'its TZID (C02/C11 finding D06)',
                'oracle: for a zoned anchor the whole-day part of a delta may be read as nominal days (RFC 5545 3.3.6) or as '
                'exact 24 h; a date and the floating midnight of that date are the same time']
 
@@ -228,10 +230,17 @@ def build_text(spec):
     return '\r\n'.join(lines) + '\r\n'
 
 
+def api_only(spec):
+    """a zoned absolute TRIGGER is not RFC 5545 (MUST be UTC) and loses its TZID when parsed (C02/C11,
+    design finding D06): such alarms are only built through the API"""
+    return any(a.get('trigger') is not None and a['trigger'][0] == 'a' and a['trigger'][1][0] == 'zone'
+               for a in spec['alarms'])
+
+
 def build(spec, how):
     from icalendar import Event, Todo
     cls = Event if spec['kind'] == 'VEVENT' else Todo
-    if how == 'api':
+    if how == 'api' or api_only(spec):
         return build_api(spec)
     if how == 'text':
         return cls.from_ical(build_text(spec))
@@ -326,6 +335,11 @@ def impl_active(comp, encs, prepare=None):
     return out
 
 
+def rel_is_start(rel):
+    """TRIGGER_RELATED == "START" (absent, or START in any case)"""
+    return rel is None or rel.upper() == 'START'
+
+
 def offset_changes(x, td):
     """zoneinfo: does `x + td` (wall-clock arithmetic) land on another UTC offset than `x`?"""
     if is_date(x) or x.tzinfo is None:
@@ -342,7 +356,7 @@ def wallclock_differs(prov, st, en, spec):
         if t is None:
             continue
         if t[0] == 'r':
-            anchor = st if a.get('related') in (None, 'START') else en
+            anchor = st if rel_is_start(a.get('related')) else en
             if anchor is None:
                 continue
             td = timedelta(seconds=t[1])
@@ -379,7 +393,7 @@ def local_table(ltz, st, en, spec):
         if t is None:
             continue
         if t[0] == 'r':
-            b = base(st if a.get('related') in (None, 'START') else en)
+            b = base(st if rel_is_start(a.get('related')) else en)
             if b is not None:
                 b += t[1]
         else:
@@ -466,7 +480,7 @@ def rand_end(rng, start, kind):
 
 
 REL_TRIGGERS = [-7200, -900, 0, 3600, -86400, 90000, -129600, 1]
-RELATED = [None, 'START', 'END', 'end', 'start']
+RELATED = [None, 'START', 'END', 'end', 'start', 'Start']
 REPDUR = [(None, None), (0, 3600), (2, None), (None, 3600), (2, 3600), (3, 0), (1, 86400), (2, 43200), (2, 5400), (-1, 60)]
 ABS = [('utc', datetime(2020, 3, 29, 0, 30)), ('utc', datetime(2021, 1, 1, 0, 0)),
        ('zone', 'Europe/Berlin', datetime(2020, 3, 29, 1, 30)), ('float', datetime(2020, 10, 25, 2, 30))]
@@ -476,12 +490,12 @@ def alarm_table():
     out = [dict(trigger=None, repeat=2, duration=60), dict(trigger=None)]
     for rd in REPDUR:
         for t in REL_TRIGGERS[:4]:
-            for rel in RELATED[:4]:
+            for rel in RELATED[:5]:
                 out.append(dict(trigger=('r', t), related=rel, repeat=rd[0], duration=rd[1]))
         for v in ABS:
             out.append(dict(trigger=('a', v), repeat=rd[0], duration=rd[1]))
     for t in REL_TRIGGERS[4:]:
-        for rel in (None, 'END', 'start'):
+        for rel in (None, 'END', 'start', 'Start'):
             out.append(dict(trigger=('r', t), related=rel, repeat=2, duration=3600))
             out.append(dict(trigger=('r', t), related=rel))
     return out
@@ -510,7 +524,7 @@ def spec_nontrivial(spec):
             return True
         if a.get('repeat') and a.get('duration') is not None:
             return True
-        if a.get('related') not in (None, 'START'):
+        if not rel_is_start(a.get('related')):
             return True
     return spec.get('start') is None or spec['start'][0] in ('date', 'float', 'zone')
 
@@ -550,6 +564,8 @@ CORPUS = [
          alarms=[dict(trigger=('r', -86400), repeat=2, duration=43200), dict(trigger=('r', -3600), related='END')]),
     dict(kind='VTODO', start=None, end=('at', ('zone', 'Europe/Berlin', datetime(2020, 3, 29, 2, 30))),
          alarms=[dict(trigger=('r', 0), related='END', repeat=2, duration=1800)]),
+    # repaired: lower-case RELATED=start was anchored to the end
+    dict(kind='VEVENT', start=('date', date(2020, 3, 29)), end=None, alarms=[dict(trigger=('r', -86400), related='start')]),
 ]
 
 
@@ -731,7 +747,9 @@ def check_spec(ctx, spec, prov, how):
         good = len(g) == len(exp) and all(x in e for x, e in zip(g, exp))
         if good:
             continue
-XX
+        cls = None
+        if prov == 'zoneinfo' and len(g) == len(exp) and g == wallexp[i]:
+            cls = 'zoneinfo-wallclock-dst'
         ctx.violation('times-mismatch', dict(inp, alarm=i),
                       f'alarm {i}: computed {g}, expected one of {[sorted(e) for e in exp]}', cls)
 
